@@ -23,10 +23,11 @@ def oracle_c04(h, k, d):
     return bad
 
 
-def run_history_check(ctx, PID, oracle, proof_target_note, extra_cov=None):
+def run_history_check(ctx, PID, oracle, proof_target_note, extra_cov=None, extra_gens=()):
     broken = []
-    tr = pygen.regenerate(REPO, COQ / "Generated", only=["GenMerge", "GenFiller"])
-    for g in ("GenMerge", "GenFiller"):
+    gens = ["GenMerge", "GenFiller"] + list(extra_gens)
+    tr = pygen.regenerate(REPO, COQ / "Generated", only=gens)
+    for g in gens:
         if tr[g]:
             broken.append(Broken(f"translator: {g} (the source no longer has the shape the model transcribes)", tr[g]))
     proof = None
